@@ -155,4 +155,19 @@ def allowedDialectDiff : List String := [
   "sqlserver_parser/None -1 SingleCharLiteral||,|,|",
   "sqlserver_parser/None -1 Suppress|||,|"]
 
+/-- regular-expression terminals of the SQL grammar that are not of a kind `MoSql.Peg` models (literal, keyword,
+character-class word, quoted text): string literals with an introducer, hexadecimal and decimal numbers, the
+dashed BigQuery identifier, the square-bracket identifier, raw strings.  None of them can match a white character
+or a comment opener outside quotes.  Written down here so that a NEW complex terminal is noticed. -/
+def pinnedOtherTerminals : List String := [
+  "(?:_utf8mb4|_utf8|_latin1|_ascii|_ucs2|_binary|n|N)?\\'(?:\\'\\'|[^'])*\\'",
+  "0x[0-9a-fA-F]+",
+  "[+-]?(?:\\d+\\.\\d*|\\.\\d+|\\d+(?=[eE]-\\d))(?:[eE][+-]?\\d+)?",
+  "[+-]?\\d+(?:[eE]\\+?\\d+)?",
+  "[\\$@-Z_a-zÀ-ÖØ-öø-ƿ](?:(?<=[^ 0-9])\\-(?=[^ 0-9])|[\\$0-9@-Z_a-zÀ-ÖØ-öø-ƿ])*",
+  "\\[(?:\\]\\]|[^\\]])*\\]",
+  "\\d+(?:[eE]\\+?\\d+)?",
+  "r\\\"(?:\\\\\\\"|[^\"])*\\\"",
+  "r\\'(?:\\\\\\'|[^'])*\\'"]
+
 end MoSql.Ref
